@@ -17,8 +17,8 @@ func init() {
 	core.Register(&core.Check{
 		ID: "C02", Level: "other", Title: "Ledger objects encode faithfully with signature-independent identity",
 		Technique: "codec schema agreement (ordered wire-kind lists of writer/reader and of the zero-copy / stream variants), field coverage of the hashed encodings, value lineage of the identity hash, guard dominance, wire-bounded allocation rule",
-		Explain: "Decided statically. (Schema) for Transaction, Sig, Header, Block and the payload types the writer and the reader perform the same ordered list of wire operations (helpers on the same receiver inlined); Header's unsigned encoder is the prefix of its signed encoder. (Identity) Header.Hash hashes exactly the bytes of serializationUnsigned, whose field set excludes Bookkeepers and SigData and covers every other persistent field; Transaction.Deserialization sets tx.hash = sha256(sha256(w)) where w is the byte window re-read over exactly the span consumed by DeserializationUnsigned (position taken before any signature is read), and the hash field is written nowhere else. (Refusals) TransactionFromRawBytes succeeds only after len(raw) <= MAX_TX_SIZE and Transaction.Deserialization only after lenAll <= MAX_TX_SIZE and the signature count <= TX_MAX_SIG_SIZE; in Block.Deserialization a transaction is appended only on the miss edge of the duplicate-hash mask and nil is returned only after TransactionsRoot == ComputeMerkleRoot(hashes) with hashes collected in loop order from the decoded transactions. (Malformed input) no decoder of core/types or core/payload sizes an allocation by an unbounded wire integer. NOT decided: value equality after a round trip, panics outside allocation sizes (index arithmetic), third-party key decoding.",
-		Run: runC02,
+		Explain:   "Decided statically. (Schema) for Transaction, Sig, Header, Block and the payload types the writer and the reader perform the same ordered list of wire operations (helpers on the same receiver inlined); Header's unsigned encoder is the prefix of its signed encoder. (Identity) Header.Hash hashes exactly the bytes of serializationUnsigned, whose field set excludes Bookkeepers and SigData and covers every other persistent field; Transaction.Deserialization sets tx.hash = sha256(sha256(w)) where w is the byte window re-read over exactly the span consumed by DeserializationUnsigned (position taken before any signature is read), and the hash field is written nowhere else. (Refusals) TransactionFromRawBytes succeeds only after len(raw) <= MAX_TX_SIZE and Transaction.Deserialization only after lenAll <= MAX_TX_SIZE and the signature count <= TX_MAX_SIG_SIZE; in Block.Deserialization a transaction is appended only on the miss edge of the duplicate-hash mask and nil is returned only after TransactionsRoot == ComputeMerkleRoot(hashes) with hashes collected in loop order from the decoded transactions. (Malformed input) no decoder of core/types or core/payload sizes an allocation by an unbounded wire integer. NOT decided: value equality after a round trip, panics outside allocation sizes (index arithmetic), third-party key decoding.",
+		Run:       runC02,
 	})
 }
 
@@ -37,7 +37,17 @@ func runC02(c *core.Ctx) {
 	hh := c.Fn(pkTypes, "Header.Hash")
 	su := c.Fn(pkTypes, "Header.serializationUnsigned")
 	if hh != nil && su != nil {
-		calls := ir.Calls(hh, func(ci ssa.CallInstruction) bool { return ci.Common().StaticCallee() == su })
+		// directly, or through a same-type accessor that does nothing else with the header (GetMessage)
+		calls := ir.Calls(hh, func(ci ssa.CallInstruction) bool {
+			h := ci.Common().StaticCallee()
+			if h == su {
+				return true
+			}
+			if h == nil || h == hh || h.Pkg != hh.Pkg || len(h.Blocks) == 0 || recvTypeName(h) != "Header" {
+				return false
+			}
+			return len(ir.Calls(h, func(x ssa.CallInstruction) bool { return x.Common().StaticCallee() == su })) == 1
+		})
 		c.Decide(len(calls) == 1, "C02.header-identity", hh, "Header.Hash encodes the header with serializationUnsigned", c.P.Rel(hh.Pos()), sprintf("%d call(s)", len(calls)))
 		ops := eng.FlatCodec(su)
 		cov := map[string]bool{}
@@ -75,19 +85,7 @@ func runC02(c *core.Ctx) {
 			c.Broken("C02.tx-identity", fn, "store to tx.hash", c.P.Rel(fn.Pos()), "not found")
 		} else {
 			// value: Sum256(temp[:]) with temp = Sum256(window)
-			outer, _ := ir.CallOf(hashStore.Val)
-			okDouble := false
-			var window ssa.Value
-			if outer != nil && ir.IsPkgFunc(outer, "crypto/sha256", "Sum256") {
-				if sl, ok := outer.Common().Args[0].(*ssa.Slice); ok {
-					if al, isAl := sl.X.(*ssa.Alloc); isAl {
-						if inner, _ := ir.CallOf(ir.SingleStore(al)); inner != nil && ir.IsPkgFunc(inner, "crypto/sha256", "Sum256") {
-							okDouble = true
-							window = inner.Common().Args[0]
-						}
-					}
-				}
-			}
+			window, okDouble := doubleShaWindow(hashStore.Val, 0)
 			c.Decide(okDouble, "C02.tx-identity", fn, "tx.hash = sha256(sha256(window))", c.P.Rel(hashStore.Pos()), "")
 			// window = NextBytes(pos - pstart) after BackUp(pos - pstart); pstart/pos are source.Pos() before/after DeserializationUnsigned
 			okWin := false
@@ -111,7 +109,9 @@ func runC02(c *core.Ctx) {
 			if sub, ok := lenV.(*ssa.BinOp); ok && sub.Op == token.SUB && duCall != nil {
 				p1, _ := ir.CallOf(sub.X)
 				p0, _ := ir.CallOf(sub.Y)
-				isPos := func(cl *ssa.Call) bool { return cl != nil && ir.CalleeObj(cl) != nil && ir.CalleeObj(cl).Name() == "Pos" }
+				isPos := func(cl *ssa.Call) bool {
+					return cl != nil && ir.CalleeObj(cl) != nil && ir.CalleeObj(cl).Name() == "Pos"
+				}
 				if isPos(p0) && isPos(p1) {
 					// p0 before the unsigned decode, p1 after it and before any signature read
 					r0 := ir.NewReach(fn).Run(p0)
@@ -240,11 +240,33 @@ func runC02(c *core.Ctx) {
 			}, token.EQL), succ, "nil return", nil)
 			// the argument is the list collected from the decoded transactions
 			okArg := false
-			for _, ci := range ir.CallsTo(fn, cmr) {
-				for _, l := range eng.PhiLeaves(nil, ci.Common().Args[0]) {
+			fromAppends := func(v ssa.Value) bool {
+				for _, l := range eng.PhiLeaves(nil, v) {
 					for _, ha := range hashAppends {
 						if l == ssa.Value(ha) {
-							okArg = true
+							return true
+						}
+					}
+				}
+				return false
+			}
+			for _, ci := range ir.CallsTo(fn, cmr) {
+				if fromAppends(ci.Common().Args[0]) {
+					okArg = true
+				}
+			}
+			// or the comparison lives in a same-package helper that is handed the collected list
+			for _, ci := range ir.Calls(fn, nil) {
+				h := ci.Common().StaticCallee()
+				if h == nil || h == fn || h.Pkg != fn.Pkg || len(h.Blocks) == 0 {
+					continue
+				}
+				for _, hc := range ir.CallsTo(h, cmr) {
+					if p, isP := hc.Common().Args[0].(*ssa.Parameter); isP {
+						for i, hp := range h.Params {
+							if hp == p && i < len(ci.Common().Args) && fromAppends(ci.Common().Args[i]) {
+								okArg = true
+							}
 						}
 					}
 				}
